@@ -93,9 +93,9 @@ def within_float32_exp_range(indep: dict, names) -> bool:
             if v is None:
                 continue
             a = rm.f64(v)
-            # log-positions / shifts enter squared metrics (g^2, 1/(gamma (1-gamma))^2): beyond ~10 the float32 Householder basis
+            # log-positions / shifts enter squared metrics (g^2, 1/(gamma (1-gamma))^2): beyond ~6.5 the float32 Householder basis
             # and the products `metric * space_shift` keep no digit for the other features (seen: deltas = -30 -> model value 1.0 for 3e-14)
-            lim = 10 if nm in ("log_g", "deltas") else 80
+            lim = 6.5 if nm in ("log_g", "deltas") else 80   # exp(6.5) * eps32 ~ 4e-5 < rtol; at 9.35 a relative error of 3.5e-3 was observed
             if a.size and np.nanmax(np.abs(a)) > lim:
                 return False
     return True
